@@ -288,6 +288,7 @@ def check(P, R):
     c06.check_end_headers(P, sub, consts)
     check_refuted_window(P, R)
     c06.check_extra_state(P, sub, 'C07.e', 'C07.e')
+    c06.check_sentinels(P, sub, 'C07.e')
 
 
 def check_refuted_window(P, R):
